@@ -113,7 +113,66 @@ def op_token_spacing(lines, rng):
     return new
 
 
+NOOP_LINES = ["pass", "\"\"\"a docstring\"\"\"", "'note'", "0", "...", "None", "pass  # nothing"]
+
+
+def _inside_def(lines, pos, ind):
+    cur = ind
+    for l in reversed(lines[:pos]):
+        if not l.strip() or l.strip().startswith("#"):
+            continue
+        n = line_indent(l)
+        if n < cur:
+            cur = n
+            if l.strip().startswith("def "):
+                return True
+        if cur == 0:
+            break
+    return False
+
+
+def op_noop_lines(lines, rng):
+    """Insert statements that do nothing (pass, constant expressions, imports the script already has at its top) at the
+    indent of the statement that follows - inside blocks and functions too (imports only outside function bodies)."""
+    out = list(lines)
+    imports = [l.strip() for l in lines if line_indent(l) == 0 and (l.startswith("from Reduino") or l.startswith("import Reduino")) and "target" not in l]
+    for _ in range(rng.randint(1, 4)):
+        pos = rng.randint(1, len(out))
+        ref = next((l for l in out[pos:] if l.strip() and not l.strip().startswith("#")), None)
+        if ref is None:
+            ind = 0
+        else:
+            ind = line_indent(ref)
+            if ref.strip().split()[0].rstrip(":") in ("else", "elif", "except", "finally"):
+                continue
+        pool = list(NOOP_LINES)
+        if imports and not _inside_def(out, pos, ind):
+            pool += imports + imports
+        out.insert(pos, " " * ind + rng.choice(pool))
+    return out
+
+
+class _StripNoops(ast.NodeTransformer):
+    def generic_visit(self, node):
+        super().generic_visit(node)
+        for field in ("body", "orelse", "finalbody"):
+            b = getattr(node, field, None)
+            if isinstance(b, list) and b and isinstance(b[0], ast.stmt):
+                kept = [x for x in b if not (isinstance(x, (ast.Pass, ast.Import, ast.ImportFrom)) or (isinstance(x, ast.Expr) and isinstance(x.value, ast.Constant)))]
+                setattr(node, field, kept or [ast.Pass()])
+        return node
+
+
+def same_python_modulo_noops(a: str, b: str) -> bool:
+    try:
+        ta, tb = _StripNoops().visit(ast.parse(a)), _StripNoops().visit(ast.parse(b))
+        return ast.dump(ta) == ast.dump(tb)
+    except SyntaxError:
+        return False
+
+
 OPS = {
+    "noop-lines": op_noop_lines,
     "comment-lines": op_comment_lines,
     "trailing-comments": op_trailing_comments,
     "header-comments": lambda l, r: op_trailing_comments(l, r, headers_only=True),
@@ -131,6 +190,7 @@ def relayout(src: str, rng, ops=None):
     for n in names:
         lines = OPS[n](lines, rng)
     new = "\n".join(lines) + "\n"
-    if new == src or not same_python(src, new):
+    same = same_python_modulo_noops(src, new) if "noop-lines" in names else same_python(src, new)
+    if new == src or not same:
         return None
     return new, names
